@@ -372,7 +372,7 @@ def gate(replay_cmd, path, want_sig, classify=None, env=None):
 
 def minimise(replay_cmd, path, want_sig, out_path, classify=None, budget=150, env=None):
     """ddmin over 'op' and 'fault' lines, then zero schedule decisions in chunks; keeps want_sig reproducing."""
-    with open(path) as f:
+    with open(path, errors="replace") as f:
         lines = f.read().splitlines()
     tries = [0]
     tmp = out_path + ".try"
